@@ -10,7 +10,7 @@ trace = open("/verif/spec/TraceSim.tla").read()
 names = set(re.findall(r'"(C\d\d\.[A-Za-z]+)"', props + trace))
 rows = []
 extra_batches = {"C01": "simbatch + apibatch", "C02": "simbatch + apibatch (+ Apalache ClusterPools, design level)", "C09": "simbatch + apibatch", "C19": "simbatch + apibatch",
-                 "C07": "simbatch + bufapibatch", "C18": "bufapibatch", "C10": "hashpairs (TraceEq)", "C11": "segpairs (TraceEq) + interrupted traces",
+                 "C07": "simbatch + bufapibatch", "C18": "simbatch + bufapibatch", "C10": "hashpairs (TraceEq)", "C11": "segpairs (TraceEq) + interrupted traces",
                  "C14": "Pure records (plan)", "C16": "Pure records (config)", "C15": "simbatch + Pure records (delay)",
                  "C06": "simbatch + Pure records (runtime, monotonicity grid)"}
 mc_extra = {"C01": "MC_ClusterAPI", "C02": "MC_ClusterAPI", "C09": "MC_ClusterAPI", "C19": "MC_ClusterAPI", "C07": "MC_Buffer",
